@@ -229,6 +229,8 @@ func init() {
 			tagIn{Src: "foo.com/", Opts: "redirect=301,https://$host$path", Host: "foo.com", Target: "/ws", Upgrade: "websocket"},
 			tagIn{Src: "foo.com/", Opts: "strip=/a redirect=301", Host: "foo.com", Target: "/a/x"},
 			tagIn{Src: "foo.com/", Opts: "redirect=301,https://a.com/$path redirect=302,https://b.com/$path", Host: "foo.com", Target: "/x"},
+			// the excluded point of tag_target_meets_spec_partial: a bare `redirect` field switches the redirect off again
+			tagIn{Src: "foo.com/", Opts: "redirect=301,https://a.com/$path redirect", Host: "foo.com", Target: "/x"},
 		},
 		Gen: func(r *hx.Rand, i int) interface{} { return genTag(r) },
 		Run: func(raw json.RawMessage) (interface{}, error) {
